@@ -15,6 +15,13 @@
 //	                          the REAL engine, one pool, one instance, the tokens of a mock shared schedule,
 //	                          a gun whose i-th Shoot sleeps dur_i, discard_overflow as given
 //
+//	prof <discard 0|1> <segs> <offs|-> <tail|-> <durs|->
+//	                          the REAL engine, one instance, on a REAL composite rps profile built from <segs> =
+//	                          once.<n> ; const.<ops>.<ms> ; pause.<ms> ; unl.<ms> (';'-separated); <offs> = the offsets (µs from
+//	                          the run's start) the CONFIGURED profile gives its finite tokens and <tail> = <start µs>:<dur µs>
+//	                          of its unlimited tail -- both are recomputed by the model from <segs> and must agree;
+//	                          the i-th Shoot sleeps dur_i ms (25 ms when not given)
+//
 // Observation: one field per token, only booleans / inequalities, never raw times:
 //
 //	w:   <ok><slow><not_early><late_enter><late_ret>   (IsSlowDown after Wait; measured instants before/after Wait
@@ -22,6 +29,9 @@
 //	st:  <ok><slow><refreshed><cached_exact>            (refreshed: the cached reading changed; cached_exact: it did not and
 //	                                                     overdue == cached reading - token)
 //	near: <ok><not_early>
+//	prof: per finite token <F|D><not before its configured offset><late2s>, then c=<lt|eq|gt> (events vs finite tokens;
+//	      lt|ge when the profile has an unlimited tail)
+//	proftail (same run as prof): t=<no shot of the unlimited tail before the tail's configured start>
 //	eng: <F|D><not_early><late2s><sample_ok>            (F fired / D reported as discarded; instant of Shoot entry or of
 //	                                                     the discard report against the token; D: net code 777 + tag)
 //
@@ -429,6 +439,132 @@ func runEng(fields []string) string {
 	return "disturbed"
 }
 
+// ---- engine on a real composite profile ----
+
+func buildProfile(segs string) core.Schedule {
+	var parts []core.Schedule
+	for _, sg := range strings.Split(segs, ";") {
+		f := strings.Split(sg, ".")
+		at := func(i int) int64 { v, _ := strconv.ParseInt(f[i], 10, 64); return v }
+		switch f[0] {
+		case "once":
+			parts = append(parts, schedule.NewOnce(at(1)))
+		case "const":
+			parts = append(parts, schedule.NewConst(float64(at(1)), time.Duration(at(2))*time.Millisecond))
+		case "pause":
+			parts = append(parts, schedule.NewConst(0, time.Duration(at(1))*time.Millisecond))
+		case "unl":
+			parts = append(parts, schedule.NewUnlimited(time.Duration(at(1))*time.Millisecond))
+		}
+	}
+	return schedule.NewComposite(parts...)
+}
+
+type profGun struct {
+	mu   *sync.Mutex
+	t0   time.Time
+	evs  *[]event
+	durs []int64
+	n    int
+}
+
+func (g *profGun) Bind(core.Aggregator, core.GunDeps) error { return nil }
+func (g *profGun) Shoot(core.Ammo) {
+	at := time.Since(g.t0).Nanoseconds()
+	g.mu.Lock()
+	*g.evs = append(*g.evs, event{at: at})
+	g.mu.Unlock()
+	d := 25 * ms
+	if g.n < len(g.durs) {
+		d = g.durs[g.n]
+	}
+	g.n++
+	time.Sleep(time.Duration(d))
+}
+
+func parseUs(s string) []int64 {
+	var out []int64
+	if s == "-" || s == "" {
+		return out
+	}
+	for _, x := range strings.Split(s, ",") {
+		v, _ := strconv.ParseInt(x, 10, 64)
+		out = append(out, v*1000)
+	}
+	return out
+}
+
+func runProf(fields []string, tailOnly bool) string {
+	discard := fields[0] == "1"
+	offs := parseUs(fields[2])
+	hasTail := fields[3] != "-"
+	var tailStart int64
+	if hasTail {
+		p := strings.Split(fields[3], ":")
+		v, _ := strconv.ParseInt(p[0], 10, 64)
+		tailStart = v * 1000
+	}
+	durs := parseList(fields[4])
+	for attempt := 0; attempt < maxAttempts; attempt++ {
+		before := disturbances.Load()
+		sched := buildProfile(fields[1])
+		var evs []event
+		t0 := time.Now()
+		sched.Start(t0)
+		aggr := &recAggr{evs: &evs, t0: func() time.Time { return t0 }}
+		gun := &profGun{mu: &aggr.mu, t0: t0, evs: &evs, durs: durs}
+		conf := engine.Config{Pools: []engine.InstancePoolConfig{{
+			Provider:        endlessProvider{},
+			Aggregator:      aggr,
+			NewGun:          func() (core.Gun, error) { return gun, nil },
+			NewRPSSchedule:  func() (core.Schedule, error) { return sched, nil },
+			StartupSchedule: schedule.NewOnce(1),
+			DiscardOverflow: discard,
+		}}}
+		m := engine.Metrics{Request: &monitoring.Counter{}, Response: &monitoring.Counter{}, InstanceStart: &monitoring.Counter{}, InstanceFinish: &monitoring.Counter{}}
+		eng := engine.New(zap.NewNop(), m, conf)
+		ctx, cancel := context.WithTimeout(context.Background(), 30*time.Second)
+		err := eng.Run(ctx)
+		cancel()
+		eng.Wait()
+		var obs []string
+		if err != nil {
+			obs = append(obs, "run-error")
+		}
+		n := len(offs)
+		tailOK := true
+		for i, e := range evs {
+			if i < n {
+				kind := "F"
+				if e.discarded {
+					kind = "D"
+				}
+				obs = append(obs, kind+b(e.at >= offs[i])+b(e.at-offs[i] >= window))
+			} else if !hasTail || e.at < tailStart {
+				tailOK = false
+			}
+		}
+		c := "eq"
+		switch {
+		case len(evs) < n:
+			c = "lt"
+		case hasTail:
+			c = "ge"
+		case len(evs) > n:
+			c = "gt"
+		}
+		obs = append(obs, "c="+c)
+		if tailOnly {
+			// same run, judged only on: no shot of the unlimited tail before the tail's configured start
+			obs = []string{"t=" + b(tailOK)}
+		}
+		if disturbances.Load() == before {
+			return strings.Join(obs, " ")
+		}
+	}
+	return "disturbed"
+}
+
 type oneSchedule struct {
 	t    time.Time
 	used bool
@@ -511,6 +647,10 @@ func runCase(c string) string {
 		}
 	case "near":
 		return runNear(f[1:])
+	case "prof", "proftail":
+		if len(f) == 6 {
+			return runProf(f[1:], f[0] == "proftail")
+		}
 	case "w":
 		return runW(f[1:])
 	case "eng":
@@ -623,6 +763,99 @@ func gen(r *vh.Rand, tier string) []string {
 			p = append(p, strconv.Itoa(r.PickInt([]int{-500, -1, 0, 50, 200, 300, 500, 800, 999, 1500, 3000, 20000})))
 		}
 		out = append(out, "near "+strings.Join(p, " "))
+	}
+	// composite rps profiles: finite segments, pauses, an unlimited tail of short duration
+	nP := 14
+	if tier == "thorough" {
+		nP = 150
+	}
+	for made := 0; made < nP; {
+		nseg := r.Range(2, 4)
+		var segs []string
+		var offs []int64 // ns
+		start := int64(0)
+		for i := 0; i < nseg; i++ {
+			switch r.Intn(4) {
+			case 0:
+				n := r.Range(1, 3)
+				segs = append(segs, fmt.Sprintf("once.%d", n))
+				for k := 0; k < n; k++ {
+					offs = append(offs, start)
+				}
+			case 1, 2:
+				ops := int64(r.PickInt([]int{2, 4, 5, 10}))
+				dur := int64(r.PickInt([]int{500, 1000})) * ms
+				n := ops * dur / (1000 * ms)
+				segs = append(segs, fmt.Sprintf("const.%d.%d", ops, dur/ms))
+				for k := int64(0); k < n; k++ {
+					offs = append(offs, start+k*(1000*ms/ops))
+				}
+				start += dur
+			case 3:
+				dur := int64(r.PickInt([]int{300, 500, 800})) * ms
+				segs = append(segs, fmt.Sprintf("pause.%d", dur/ms))
+				start += dur
+			}
+		}
+		tail := "-"
+		if r.Chance(3, 4) {
+			dur := int64(r.PickInt([]int{200, 300})) * ms
+			segs = append(segs, fmt.Sprintf("unl.%d", dur/ms))
+			tail = fmt.Sprintf("%d:%d", start/1000, dur/1000)
+			start += dur
+		}
+		if len(offs) == 0 || len(offs) > 14 || start > 4000*ms {
+			continue
+		}
+		discard := r.Chance(1, 2)
+		var durs []int64
+		if r.Chance(1, 3) { // one slow response puts the instance behind
+			pos := r.Intn(len(offs))
+			for k := 0; k < pos; k++ {
+				durs = append(durs, 25*ms)
+			}
+			durs = append(durs, int64(r.PickInt([]int{1200, 2300, 2600}))*ms)
+		}
+		// planned lateness of every token must stay clear of the 2 s boundary
+		t, okm, total, fired := int64(0), true, int64(0), 0
+		for _, off := range offs {
+			late := t - off
+			x := late - window
+			if x < 0 {
+				x = -x
+			}
+			if x < margin {
+				okm = false
+			}
+			ret := t
+			if off > ret {
+				ret = off
+			}
+			if discard && late >= window {
+				t = ret
+			} else {
+				d := 25 * ms
+				if fired < len(durs) {
+					d = durs[fired]
+				}
+				fired++
+				t = ret + d
+			}
+			total = t
+		}
+		if !okm || total > 6000*ms {
+			continue
+		}
+		var offsUs []string
+		for _, o := range offs {
+			offsUs = append(offsUs, strconv.FormatInt(o/1000, 10))
+		}
+		line := fmt.Sprintf("%s %s %s %s %s", b(discard), strings.Join(segs, ";"), strings.Join(offsUs, ","), tail, joinMs(durs))
+		out = append(out, "prof "+line)
+		if tail != "-" && made%3 == 0 {
+			out = append(out, "proftail "+line)
+		}
+		made++
 	}
 	cnt := 0
 	for cnt < nE {
